@@ -21,6 +21,7 @@ TRIGGER_FEATURES: Dict[str, Dict[str, float]] = {
     "inlineNoType": {"inline_notype": 0.4},
     "typenameAlias": {"typename_alias": 1.0, "typename": 0.5},
     "mixinAndUnpacked": {"mixin_and_unpacked": 1.0, "spread_same": 0.6},
+    "condTypename": {"typename_cond": 1.0, "typename": 0.6},
 }
 
 
@@ -104,6 +105,12 @@ def class_ir_correspondence(ctx: Ctx, cases: List[Dict[str, Any]], res: Result, 
             seen += [m for m in d["impl"].get("marks", []) if m > 0 and m not in seen]
             lines.append(line)
             index.append((ci, di))
+            if "error" in d["impl"]:
+                # the real pipeline aborts at the first definition that raises (main.client propagates the exception);
+                # the failed definition may already have inserted `__typename` into shared fragment ASTs, so what the
+                # generator would emit for LATER definitions is not a behaviour of ariadne-codegen: not compared
+                res.count(f"classIR:{region}:definitions-after-first-error-skipped", len(r["defs"]) - di - 1)
+                break
     if not lines:
         return
     outs = common.run_driver(DRIVER, lines)
